@@ -1,21 +1,23 @@
 --------------------------- MODULE HistoryC22Trace ---------------------------
 (* E3 for C22: observations of real branches judged by the laws of History.  Rows
      [c |-> [par, t], kind, ob |-> [getrev, getrev2, map, back, res]]
-   (res entries carry the specifier as a tuple <<k, a, b>>).  Written back: failed laws and, for the specifier law,
-   the indices of the offending resolutions. *)
+   (res entries carry the specifier as a tuple <<k, a, b, o>>).  Written back: failed laws and, for the specifier law,
+   the offending resolutions as <<index, resolution path>>. *)
 EXTENDS History, TLC, Json, IOUtils, SequencesExt
 VARIABLE i
 Init == i = 0
 Next == UNCHANGED i
 ObOf(row) == [getrev |-> row.ob.getrev, map |-> row.ob.map, back |-> row.ob.back,
-              res |-> [k \in DOMAIN row.ob.res |-> [sp |-> Spec(row.ob.res[k].sp[1], row.ob.res[k].sp[2], row.ob.res[k].sp[3]),
+              res |-> [k \in DOMAIN row.ob.res |-> [sp |-> SpecO(row.ob.res[k].sp[1], row.ob.res[k].sp[2], row.ob.res[k].sp[3], row.ob.res[k].sp[4]),
                                                      ih |-> row.ob.res[k].ih, ar |-> row.ob.res[k].ar]]]
 Judge(row) ==
     LET P == row.c.par
         ob == ObOf(row)
         f == C22Failed(P, row.c.t, ob)
               \cup (IF LawGetRev(P, row.c.t, [ob EXCEPT !.getrev = row.ob.getrev2]) THEN {} ELSE {"getrev"})
-    IN [failed |-> SetToSeq(f), badspecs |-> SetToSeq(BadSpecs(P, row.c.t, ob))]
+        paths(k) == (IF ob.res[k].ih \notin Meaning(P, row.c.t, ob.res[k].sp) THEN {"in_history"} ELSE {})
+                    \cup (IF ob.res[k].ar \notin Meaning(P, row.c.t, ob.res[k].sp) THEN {"as_revision_id"} ELSE {})
+    IN [failed |-> SetToSeq(f), badspecs |-> SetToSeq(UNION {{<<k, p>> : p \in paths(k)} : k \in BadSpecs(P, row.c.t, ob)})]
 Bad(R) == SelectSeq([k \in 1..Len(R) |-> LET j == Judge(R[k]) IN [row |-> k, failed |-> j.failed, badspecs |-> j.badspecs]],
                     LAMBDA r : r.failed # <<>>)
 ASSUME LET R == JsonDeserialize(IOEnv.VF_IN) IN JsonSerialize(IOEnv.VF_OUT, [n |-> Len(R), bad |-> Bad(R)])
